@@ -1127,6 +1127,10 @@ func isEnumPhi(phi *ssa.Phi) bool {
 		}
 		switch c.Value.Kind() {
 		case constant.Bool:
+		case constant.String:
+			if len(constant.StringVal(c.Value)) > 80 {
+				return false
+			}
 		case constant.Int:
 			if n, ok := constant.Int64Val(c.Value); !ok || n < -2 || n > 8 {
 				return false
